@@ -181,7 +181,7 @@ mod verif_comment {
                 first[j] = got[j];
                 let same = got[j] == full[j];
                 assert!(same || got[j] == upper(full[j]), "OB rewriters/directive_only_case: only ASCII letter case changes, towards upper case");
-                assert!(same || (is_dir && !ignored && j >= p), "OB rewriters/directive_scope: only unignored directives change, and only after the `{$` / `(*$` prefix");
+                assert!(same || (is_dir && !ignored && j >= p), "OB rewriters/directive_scope: only unignored directives change, and only after the directive opener");
                 assert!(same || !seen_kept_lower, "OB rewriters/directive_name_span: the upper-cased bytes form one span starting at the directive name");
                 if same && full[j] >= b'a' && full[j] <= b'z' && j >= p {
                     seen_kept_lower = true;
